@@ -514,6 +514,7 @@ PAYLOAD_POOL = ["1", "0", "42", "21.5", "on", "", "Off", "HeatOn", "ff00ff", "ff
 
 
 _SCHEMAS = {}
+_SPEC = []
 
 
 def valid_payload_for(rng, const, mtype, sub):
@@ -622,7 +623,7 @@ def gen_history(rng, version, n, persist=False, ota=True, sleep=True, malformed=
         elif kind == "wake":
             node = known_node()
             sub = internal.I_PRE_SLEEP_NOTIFICATION if version >= "2.2" else internal.I_HEARTBEAT_RESPONSE
-            hist.append(line(node, 255, mt.internal, 0, sub, str(rng.randrange(1000))))
+            hist.append(line(node, 255, mt.internal, 0, sub, wake_payload(rng)))
             if node in sym.nodes and sym.nodes[node]["children"]:
                 sym.nodes[node]["sleep"] = True
         elif kind == "ctl_set":
@@ -705,6 +706,13 @@ def separator_value_burst(rng, version, hist):
     return out[:pos] + script + out[pos:]
 
 
+def wake_payload(rng):
+    """what a node puts into its heartbeat response / pre-sleep notification: a counter or a duration in ms,
+    any integer including 0"""
+    return rng.choice(["0", "0", "1", "7", "500", str(rng.randrange(1000)), str(rng.randrange(1000)), "65535",
+                       "86400000", "4294967295"])
+
+
 def pending_pair_burst(rng, version, hist):
     """Weave one scripted smart-sleep episode into a history (protocol >= 2.0): a dimmer child reports two
     value types, the node announces sleep, the controller sets BOTH types, the node then reports only one of
@@ -714,7 +722,7 @@ def pending_pair_burst(rng, version, hist):
         return hist
     node = rng.choice([1, 2, 7, 42])
     child = rng.choice([0, 1, 5])
-    wake = f"{node};255;3;0;{32 if version == '2.2' else 22};{rng.randrange(1000)}\n"
+    wake = f"{node};255;3;0;{32 if version == '2.2' else 22};{wake_payload(rng)}\n"
     a, b = rng.choice([(2, 3), (3, 2)])
     val = {2: lambda: rng.choice(["0", "1"]), 3: lambda: str(rng.randrange(101))}
     first = {2: val[2](), 3: val[3]()}
@@ -841,6 +849,22 @@ def gen_malformed(rng, version, sym):
         return (f"{rng.choice([node, 256, -1, 1000])};{rng.choice([0, 255, 256, -1])};"
                 f"{rng.choice([0, 1, 2, 3, 4, 5, -1])};{rng.choice([0, 1, 2, -1])};"
                 f"{rng.choice([0, 1, 16, 22, 32, 33, 34, 47, 48, 56, 57, 99, -1])};{rng.choice(PAYLOAD_POOL)}\n")
+    if r < 0.62:
+        # a defined command and sub-type of this version with a payload from the boundary corpus of its rule
+        # (C03's): one field short or long, blanks, other digit systems, values just outside the range ...
+        from . import c03
+        if not _SPEC:
+            _SPEC.append(c03.load_spec())
+        typ = rng.choice([0, 1, 1, 1, 2, 3, 3])
+        subs = sorted(int(x) for x in _SPEC[0]["versions"][version]["commands"][str(typ)]["sub_types"])
+        sub = rng.choice(subs)
+        rule = c03.spec_rule(_SPEC[0], version, typ, sub)
+        if rule is not None and not rule.startswith("text"):
+            kids = list(sym.nodes.get(node, {}).get("children", {})) or [0]
+            child = 255 if typ == 3 or (typ == 0 and sub in (17, 18)) else rng.choice(kids)
+            payload = rng.choice(c03.class_corpus(rule))
+            if ";" not in payload and "\n" not in payload and len(payload) < 200:
+                return f"{node};{child};{typ};0;{sub};{payload}\n"
     if r < 0.8:
         # valid header, arbitrary payload
         typ = rng.choice([0, 1, 2, 3, 4])
